@@ -78,6 +78,15 @@ func overlapCells() []fw.Case {
 		for _, force := range []bool{true, false} {
 			firsts = append(firsts, sx.L(sx.A("D"), sx.B(force), sx.B(true), sx.B(true)))
 		}
+		// a teardown that FAILS at its first or at its second release round: the environment lives on (still
+		// listed, not DONE), and the request that queued behind it is carried out afterwards, on the state the
+		// failed teardown left (tag overlap-failed-teardown)
+		for _, force := range []bool{true, false} {
+			if !force && st != "STANDBY" && st != "DEPLOYED" {
+				continue // refused before it gets anywhere: nothing to overlap with
+			}
+			firsts = append(firsts, sx.L(sx.A("D"), sx.B(force), sx.B(false), sx.B(true)), sx.L(sx.A("D"), sx.B(force), sx.B(true), sx.B(false)))
+		}
 		var seconds []*sx.Node
 		for _, force := range []bool{true, false} {
 			seconds = append(seconds, sx.L(sx.A("D"), sx.B(force), sx.B(true), sx.B(true)))
@@ -102,7 +111,11 @@ func overlapCells() []fw.Case {
 					ev := q2.At(1).Str()
 					hooks.Add(sx.L(sx.I(3), sx.A("call"), sx.B(false), sx.A("before_"+ev), sx.I(0), sx.A("before_"+ev), sx.I(0), sx.L()))
 				}
-				cs = append(cs, fw.Case{Input: sx.L(hooks, reqs, sx.I(1)).String(), Tags: []string{"overlap-cell", "overlapping-requests"}})
+				tags := []string{"overlap-cell", "overlapping-requests"}
+				if q1.At(0).Str() == "D" && !(q1.At(2).Bool() && q1.At(3).Bool()) {
+					tags = append(tags, "overlap-failed-teardown")
+				}
+				cs = append(cs, fw.Case{Input: sx.L(hooks, reqs, sx.I(1)).String(), Tags: tags})
 			}
 		}
 	}
@@ -162,7 +175,7 @@ func init() {
 		Rule: "all 6x8 (state,event) cells x {TryTransition, API glue} x {body ok, body fails} with hooks at the request's moments (exhaustive), then random " +
 			"walks of 1..14 requests (30% arbitrary events, 60% through the ControlEnvironment glue, 8% teardowns with scripted release results) over 0..5 hooks " +
 			"(call and task hooks, failing executions, floating awaits; 9% of the positions hold an overlapping pair), plus the exhaustive table of overlapping pairs " +
-			"(5 states x every first request that reaches its critical section x 13 second requests, teardown + control pairs included); non-trivial = >=2 hooks and >=3 requests; distinct by input text",
+			"(5 states x every first request that reaches its critical section x 13 second requests, teardown + control pairs included, also behind a teardown that FAILS at its first or second release round); for every pair the trace records, while the first request is parked inside its critical section, what the second caller was seen doing (queued on transitionMutex / returned / elsewhere) and the state reported before and after; non-trivial = >=2 hooks and >=3 requests; distinct by input text",
 		Shrink:   envh.Shrink,
 		Workers:  1,
 		Setup:    envh.Setup,
@@ -175,7 +188,7 @@ func init() {
 		Assumptions: []string{
 			"looplab/fsm v1.0.1 Event/Cancel semantics as modelled (sampled by every case)",
 			"scripted task-level bodies stand in for the real transition bodies (Deploy/Configure/Start/Stop/Reset talk to the task manager)",
-			"transitionMutex serialises requests (sync.RWMutex trusted); overlap is arranged pairwise (second request observed blocked on transitionMutex while the first is parked inside its critical section)",
+			"transitionMutex serialises requests (sync.RWMutex trusted); overlap is arranged pairwise (first request parked inside its critical section; whether the second is then seen blocked on transitionMutex, or returns, or blocks elsewhere is part of the observation, read off a goroutine dump)",
 		},
 	})
 }
